@@ -182,6 +182,126 @@ def relation_one(dt):
                        extra_backend=dict(while_loop_winfo=K.capture_loop(store)))
 
 
+def orth_one(dt):
+    """Orthonormality of the new basis vector, proved from the real code by the invariant rule and finite-sum algebra (vcgen/symalg.py, sympy back end):
+         hypothesis  Q_0..Q_idx orthonormal:  <Q_a, Q_b> = delta_ab for a, b <= idx
+         fold invariant  <Q_l, w_t> = 0 for l < t:  trivially true at t = 0; preserved by the REAL Gram-Schmidt step (cases l < t and l = t)
+         conclusion (real rest of body_fun)  <Q_l, Q'_{idx+1}> = 0 for l <= idx, and <Q'_{idx+1}, Q'_{idx+1}> = 1 when the normalisation is not clipped."""
+    import sympy as sp
+    from vcgen import symalg
+    from vcgen.rules import sym_dim
+    Ar = importlib.import_module("cola.linalg.decompositions.arnoldi")
+    dtype = np.float64 if dt == "real" else np.complex128
+    store = {}
+    fl = {}
+
+    def thunk():
+        n, b, mi = sym_dim("n"), sym_dim("b"), sym_dim("max_iters")
+        A, a = idx.make_abstract_op("A", n, n, dtype)
+        Q = state_array("Q", (b, n, mi + 1), dtype)
+        H = state_array("H", (b, mi + 1, mi), dtype)
+        k = SInt(z3.Int(CTX.fresh("idx")))
+        tol = SScal(z3.Real(CTX.fresh("tol")))
+        CTX.assume(tol.re > 0)
+        nrm = state_array("norm", (b,), np.float64)
+        bb, l0 = z3.Int(CTX.fresh("bb")), z3.Int(CTX.fresh("l"))
+        CTX.assume(z3.And(bb >= 0, bb < b.term, l0 >= 0, l0 <= k.term))
+        goals = []
+
+        def decide(c):
+            return alg.implied(CTX.facts(), c)
+        T = symalg.Translator(dt == "complex", decide)
+
+        def ip_with_col(j, vec):
+            """<Q_j, vec> for the batch element bb as a sympy expression"""
+            return T.tr(one(inner(col(Q, SInt(j) if not isinstance(j, SInt) else j), vec), bb))
+
+        def make_rule(zero_w=None, t_sym=None, l_sym=None, l_lt_t=False):
+            Qf = T.fn(Q.fn(z3.IntVal(0), z3.IntVal(0), z3.IntVal(0))[0].val.decl().name())
+
+            def rule(f, v, lo, hi):
+                facs = list(sp.Mul.make_args(f))
+                coeff = [x for x in facs if not x.has(v)]
+                rest = []
+                for x in facs:
+                    if x.has(v):
+                        if isinstance(x, sp.Pow) and x.exp == 2:
+                            rest += [x.base, x.base]
+                        else:
+                            rest.append(x)
+                if len(rest) != 2:
+                    return None
+                def qcol(x):
+                    y = x.args[0] if isinstance(x, sp.conjugate) else x
+                    if getattr(y, "func", None) == Qf and len(y.args) == 3 and y.args[1] == v:
+                        return y.args[2], isinstance(x, sp.conjugate)
+                    return None
+                qa, qb = qcol(rest[0]), qcol(rest[1])
+                if qa and qb and (dt == "real" or qa[1] != qb[1]):
+                    A_, B_ = qa[0], qb[0]
+                    d = sp.simplify(A_ - B_)
+                    if d == 0:
+                        val = sp.Integer(1)
+                    elif d.is_number or (l_lt_t and {A_, B_} == {l_sym, t_sym}):
+                        val = sp.Integer(0)
+                    else:
+                        return None
+                    return sp.Mul(*coeff) * val
+                if zero_w is not None:
+                    for q_, o_ in ((qa, rest[1]), (qb, rest[0])):
+                        if q_ and (dt == "real" or q_[1]) and zero_w(q_[0], o_, v):
+                            return sp.Integer(0)
+                return None
+            return rule
+
+        def for_loop(lo, hi, body, init):
+            W0, h0 = init
+            t = SInt(z3.Int(CTX.fresh("t")))
+            CTX.assume(z3.And(t.term >= iterm(lo), t.term < iterm(hi), t.term <= k.term))
+            w = state_array("w_partial", W0.shape, W0.dtype)
+            h = state_array("h_partial", h0.shape, h0.dtype)
+            w1, h1 = body(t, (w, h))
+            wname = w.fn(z3.IntVal(0), z3.IntVal(0))[0].val.decl().name()
+            Wf = T.fn(wname)
+            t_s, l_s = T.tr(t.term), T.tr(l0)
+            # invariant at t:  <Q_l, w> = 0 for l < t
+            def zero_w(colidx, other, v):
+                return getattr(other, "func", None) == Wf and other.args[-1] == v and colidx == l_s
+            # case l < t
+            e1 = T.tr(one(inner(col(Q, SInt(l0)), w1), bb))
+            e1 = symalg.rewrite_sums(e1, make_rule(zero_w=zero_w, t_sym=t_s, l_sym=l_s, l_lt_t=True))
+            goals.append(("fold invariant preserved by the real Gram-Schmidt step: <Q_l, w'> = 0 for l < t (given <Q_l, w> = 0 and orthonormal Q_0..Q_idx)", bool(symalg.is_zero(e1))))
+            # case l = t
+            e2 = T.tr(one(inner(col(Q, t), w1), bb))
+            e2 = symalg.rewrite_sums(e2, make_rule())
+            goals.append(("fold invariant established for the new index: <Q_t, w'> = 0 (h_t is the component of w along Q_t)", bool(symalg.is_zero(e2))))
+            fl["wfin"] = state_array("w_fold", W0.shape, W0.dtype)
+            fl["hfin"] = state_array("h_fold", h0.shape, h0.dtype)
+            return fl["wfin"], fl["hfin"]
+        ifns.for_loop = for_loop
+        CTX.assume(z3.And(k.term >= 0, k.term < mi.term))
+        Ar.arnoldi_fact(A, (Q, H, k, nrm), max_iters=mi, tol=tol, pbar=False)
+        Q1, H1, k1, n1 = store["body"]((Q, H, k, nrm))
+        wf = fl["wfin"]
+        Wfin = T.fn(wf.fn(z3.IntVal(0), z3.IntVal(0))[0].val.decl().name())
+        l_s = T.tr(l0)
+
+        def zero_fin(colidx, other, v):          # invariant at the exit of the fold: <Q_l, w_fold> = 0 for every l <= idx
+            return getattr(other, "func", None) == Wfin and other.args[-1] == v
+        newcol = col(Q1, k + 1)
+        e3 = T.tr(one(inner(col(Q, SInt(l0)), newcol), bb))
+        e3 = symalg.rewrite_sums(e3, make_rule(zero_w=zero_fin))
+        goals.append(("the new basis vector is orthogonal to Q_0..Q_idx: <Q_l, Q'_{idx+1}> = 0 for l <= idx", bool(symalg.is_zero(e3))))
+        e4 = T.tr(one(inner(newcol, newcol), bb))
+        clipf = T.fn("clip_lo")
+        # no clipping: clip_lo(x, lo) = x for x >= lo  (instance), x = ||w|| = sqrt(sum |w|^2) > 0
+        e4 = e4.replace(lambda x: getattr(x, "func", None) == clipf, lambda x: x.args[0])
+        goals.append(("and has unit norm when the normalisation is not clipped: <Q'_{idx+1}, Q'_{idx+1}> = 1", bool(symalg.is_zero(e4 - 1))))
+        return goals
+    return K.run_paths(f"C15/arnoldi orthonormality[{dt}]", FN + "arnoldi_fact", thunk, dict(engine="ARNOLDI", part="orth", dtype=dt),
+                       extra_backend=dict(while_loop_winfo=K.capture_loop(store)))
+
+
 def init_one(dt):
     from vcgen.rules import sym_dim
     Ar = importlib.import_module("cola.linalg.decompositions.arnoldi")
@@ -335,13 +455,13 @@ def run(chk):
     chk.assume("the Householder variant (use_householder=True) and batched start vectors (xnp.vmap) are outside the domain")
     tasks = [("loop", "real"), ("loop", "complex"), ("init", "real"), ("init", "complex"), ("init", "mixed"),
              ("wrapper", "real", "cap<n"), ("wrapper", "real", "cap>=n"), ("wrapper", "complex", "cap<n"), ("wrapper", "complex", "cap>=n"),
-             ("eigs", "real"), ("eigs", "complex"), ("relation", "real"), ("relation", "complex"), ("cap", "cap<n"), ("cap", "cap>=n")]
+             ("eigs", "real"), ("eigs", "complex"), ("relation", "real"), ("relation", "complex"), ("cap", "cap<n"), ("cap", "cap>=n"), ("orth", "real"), ("orth", "complex")]
     for nm in ("arnoldi_fact", "init_arnoldi", "arnoldi", "arnoldi_eigs"):
         chk.under_contract(FN + nm)
 
     def work(j):
         t = tasks[j]
-        return {"loop": loop_one, "init": init_one, "wrapper": wrapper_one, "eigs": eigs_one, "relation": relation_one, "cap": cap_one}[t[0]](*t[1:])
+        return {"loop": loop_one, "init": init_one, "wrapper": wrapper_one, "eigs": eigs_one, "relation": relation_one, "cap": cap_one, "orth": orth_one}[t[0]](*t[1:])
     for obs in pmap(work, len(tasks)):
         for ob in obs:
             chk.add(ob)
